@@ -260,6 +260,16 @@ func c19Entry(c *core.Ctx, efr *ssa.Function) {
 			}
 		}
 	}
+	var explicitV ssa.Value
+	if explicitPhi != nil {
+		explicitV = explicitPhi
+	}
+	if !okSel {
+		// the selection moved into a private helper returning (helper, explicit)
+		if ok, ev := helperSelectedByHelper(helperV, efr); ok {
+			okSel, explicitV = true, ev
+		}
+	}
 	c.Check(okSel && argIsParam(runnerCall.Call.Args[1], efr, 1), "C19.R2", "EntryForRegistry/helper-selection", runnerCall.Pos(), "the per-host helper is used when configured, the default store otherwise", "the helper that is run is not (per-host helper if configured, else the default store) for the looked-up host")
 	// the table is consulted only when allowed
 	var errV ssa.Value
@@ -279,7 +289,7 @@ func c19Entry(c *core.Ctx, efr *ssa.Function) {
 				if x, isNil, ok := facts.NilCheck(cd); ok && errV != nil && facts.Resolve(x) == errV && !isNil {
 					t["failed"] = true
 				}
-				if explicitPhi != nil && cd.V == ssa.Value(explicitPhi) && !cd.Pos {
+				if explicitV != nil && cd.V == explicitV && !cd.Pos {
 					t["notExplicit"] = true
 				}
 				// or the comma-ok of the per-host helper lookup itself is the flag
@@ -303,26 +313,45 @@ func c19Entry(c *core.Ctx, efr *ssa.Function) {
 			return true
 		},
 	}
-	flow := facts.PathFlow(efr, ff)
+	pred := func(t facts.Tokens) bool {
+		return t["noHelper"] || (t["failed"] && t["notExplicit"] && t["notFound"])
+	}
 	n := 0
-	for _, b := range efr.Blocks {
-		for _, in := range b.Instrs {
-			lk, ok := in.(*ssa.Lookup)
-			if !ok || !isAuthsMap(lk.X) {
-				continue
+	checkLookups := func(fn *ssa.Function, flow map[*ssa.BasicBlock]facts.DNF) {
+		for _, b := range fn.Blocks {
+			for _, in := range b.Instrs {
+				lk, ok := in.(*ssa.Lookup)
+				if !ok || !isAuthsMap(lk.X) {
+					continue
+				}
+				n++
+				ok2 := facts.AllAt(ff, flow, in, pred)
+				c.Check(ok2, "C19.R2", "EntryForRegistry/table-only-as-fallback", in.Pos(), "the auths table is consulted only without a helper, or after the default helper was not found", "the auths table is consulted on a path where a helper is configured and it is not established that the helper failed, is the default (not per-host) one, and the failure is ErrHelperNotFound: a per-host helper no longer wins (or the answer depends on earlier lookups)")
 			}
-			n++
-			ok2 := facts.AllAt(ff, flow, in, func(t facts.Tokens) bool {
-				return t["noHelper"] || (t["failed"] && t["notExplicit"] && t["notFound"])
-			})
-			c.Check(ok2, "C19.R2", "EntryForRegistry/table-only-as-fallback", in.Pos(), "the auths table is consulted only without a helper, or after the default helper was not found", "the auths table is consulted on a path where a helper is configured and it is not established that the helper failed, is the default (not per-host) one, and the failure is ErrHelperNotFound: a per-host helper no longer wins (or the answer depends on earlier lookups)")
 		}
 	}
+	touchesAuths := func(in ssa.Instruction) bool {
+		lk, ok := in.(*ssa.Lookup)
+		return ok && isAuthsMap(lk.X)
+	}
+	// a table lookup moved into a private helper is judged under the facts of each call
+	il := facts.NewInliner(&ff, func(h *ssa.Function) bool {
+		return h.Pkg == efr.Pkg && len(privateCallSites(h)) > 0 && helperTouches(h, 2, touchesAuths)
+	})
+	il.OnInlined = func(h *ssa.Function, flow map[*ssa.BasicBlock]facts.DNF) { checkLookups(h, flow) }
+	flow := facts.PathFlow(efr, ff)
+	checkLookups(efr, flow)
 	if n == 0 {
 		c.Fail("C19.R2", "EntryForRegistry/table-only-as-fallback", efr.Pos(), "EntryForRegistry never consults the auths table")
 	}
 	// table credentials only under len(derivedFrom) <= 1
-	for _, r := range returnsOf(efr) {
+	var rets []*ssa.Return
+	for _, f := range withHelpers(efr) {
+		if f.Parent() == nil {
+			rets = append(rets, returnsOf(f)...)
+		}
+	}
+	for _, r := range rets {
 		if !facts.RetErrIsNil(r) {
 			continue
 		}
@@ -352,4 +381,92 @@ func c19Entry(c *core.Ctx, efr *ssa.Function) {
 		}
 		c.Check(ok, "C19.R2", "EntryForRegistry/ambiguous-derived-rejected", r.Pos(), "table credentials are returned only when at most one URL key maps to the host", "credentials from the auths table are returned on a path where several URL-form keys may map to the host: one of them is picked arbitrarily")
 	}
+}
+
+// helperSelectedByHelper: v is result 0 of a call to a private helper that is
+// given the looked-up host and returns (CredHelpers[host], true) when the
+// per-host entry exists and (CredsStore, false) otherwise; the second result
+// of that call is then the "explicitly configured" flag.
+func helperSelectedByHelper(v ssa.Value, efr *ssa.Function) (bool, ssa.Value) {
+	ex, ok := facts.Resolve(v).(*ssa.Extract)
+	if !ok || ex.Index != 0 {
+		return false, nil
+	}
+	call, ok := ex.Tuple.(*ssa.Call)
+	if !ok {
+		return false, nil
+	}
+	h := call.Call.StaticCallee()
+	if h == nil || h.Blocks == nil || len(privateCallSites(h)) == 0 || h.Signature.Results().Len() != 2 {
+		return false, nil
+	}
+	hostIdx := -1
+	for i, a := range call.Call.Args {
+		if argIsParam(a, efr, 1) {
+			hostIdx = i
+		}
+	}
+	if hostIdx < 0 {
+		return false, nil
+	}
+	perHost, store := false, false
+	for _, vr := range virtualReturns(h) {
+		if len(vr.Vals) != 2 {
+			return false, nil
+		}
+		v0 := facts.Resolve(vr.Vals[0])
+		flag, isK := facts.Resolve(vr.Vals[1]).(*ssa.Const)
+		if !isK || flag.Value == nil {
+			return false, nil
+		}
+		if e0, ok := v0.(*ssa.Extract); ok && e0.Index == 0 {
+			lk, ok := e0.Tuple.(*ssa.Lookup)
+			if !ok {
+				return false, nil
+			}
+			_, fld, isF := facts.FieldOf(facts.Resolve(lk.X))
+			if !isF || fld != "CredHelpers" || !argIsParam(lk.Index, h, hostIdx) || flag.Value.String() != "true" {
+				return false, nil
+			}
+			// returned only when the entry exists
+			found := false
+			for _, cd := range vr.Conds {
+				if e1, ok := cd.V.(*ssa.Extract); ok && e1.Index == 1 && e1.Tuple == e0.Tuple && cd.Pos {
+					found = true
+				}
+			}
+			if !found {
+				return false, nil
+			}
+			perHost = true
+			continue
+		}
+		if _, fld, isF := facts.FieldOf(v0); isF && fld == "CredsStore" && flag.Value.String() == "false" {
+			absent := false
+			for _, cd := range vr.Conds {
+				if e1, ok := cd.V.(*ssa.Extract); ok && e1.Index == 1 && !cd.Pos {
+					if lk, ok := e1.Tuple.(*ssa.Lookup); ok {
+						if _, f2, isF2 := facts.FieldOf(facts.Resolve(lk.X)); isF2 && f2 == "CredHelpers" {
+							absent = true
+						}
+					}
+				}
+			}
+			if !absent {
+				return false, nil
+			}
+			store = true
+			continue
+		}
+		return false, nil
+	}
+	if !perHost || !store {
+		return false, nil
+	}
+	for _, ref := range *call.Referrers() {
+		if e1, ok := ref.(*ssa.Extract); ok && e1.Index == 1 {
+			return true, e1
+		}
+	}
+	return true, nil
 }
